@@ -97,6 +97,11 @@ theorem c13_send_stops_at_cancel (n k : Nat) : sendCtx sendChecksCtxPerPacket n 
 error sends watch the connection context (it ends with the connection) -/
 theorem c13_close_guards : closeChecksClosedFirst = true ∧ readerErrSendsGuarded = true := by decide
 
+/-- a receiver waiting in `NextPackage` keeps `Close` out until it has returned: the read lock is held
+for the whole call, so the queues are never closed under a waiting receiver (which would hand it a nil
+package without an error) -/
+theorem c13_receiver_excludes_close : nextPackageHoldsRLock = true := by decide
+
 /-! ### Close gets its lock -/
 
 /-- every step strictly decreases the measure … -/
